@@ -79,6 +79,7 @@ func checkC12(c *core.Ctx) {
 	r2 := c.Rule("R12.2", "T", "Stream callbacks only under the connection lock")
 	r3 := c.Rule("R12.3", "T", "lockset of StreamPool.conns/free and of connection state")
 	r4 := c.Rule("R12.4", "T", "double-checked insert in getConnection")
+	checkThenActOneSection(c, c.Rule("R12.8", "T", "a map lookup and the pool update it decides lie in one critical section"))
 	r6 := c.Rule("R12.6", "T", "a connection handed back to the pool (remove) is not accessed again by the function that removed it")
 	r5 := c.Rule("R12.5", "T", "no reachable explicit panic in the assembler API (except tabled ones)")
 
@@ -501,4 +502,96 @@ func addrAccessed(v ssa.Value) bool {
 		}
 	}
 	return false
+}
+
+// checkThenActOneSection (R12.8): a decision taken from a lookup in the pool's
+// connection map (found / not found) and the action it allows on the pool's
+// shared state (delete from the map, push on the free list, insert) lie in
+// one critical section: the pool's lock is not released on any path between
+// the lookup and the action.  Deciding under the read lock and acting under a
+// later write lock lets two goroutines take the same decision.
+func checkThenActOneSection(c *core.Ctx, r *core.Rule) {
+	p := c.P
+	n := 0
+	for _, pkg := range []string{"tcpassembly", "reassembly"} {
+		for _, fn := range pkgFunctions(p, pkg) {
+			k := 0
+			core.Instrs(fn, func(ins ssa.Instruction) {
+				// actions on pool state
+				isAct := false
+				switch x := ins.(type) {
+				case *ssa.Store:
+					if fa, ok := x.Addr.(*ssa.FieldAddr); ok && core.FieldOfAddr(fa).Name() == "free" && core.NamedIs(fa.X.Type(), "StreamPool") {
+						isAct = true
+					}
+				case *ssa.MapUpdate:
+					if a, ok := core.IsLoad(x.Map); ok {
+						if fa, ok := a.(*ssa.FieldAddr); ok && core.FieldOfAddr(fa).Name() == "conns" {
+							isAct = true
+						}
+					}
+				case *ssa.Call:
+					if bi, ok := x.Call.Value.(*ssa.Builtin); ok && bi.Name() == "delete" {
+						if a, ok := core.IsLoad(x.Call.Args[0]); ok {
+							if fa, ok := a.(*ssa.FieldAddr); ok && core.FieldOfAddr(fa).Name() == "conns" {
+								isAct = true
+							}
+						}
+					}
+				}
+				if !isAct {
+					return
+				}
+				var stale, fresh *ssa.Lookup
+				for _, dc := range core.DomConds(ins.Block()) {
+					var lk *ssa.Lookup
+					var find func(v ssa.Value, d int)
+					find = func(v ssa.Value, d int) {
+						if d > 6 || lk != nil {
+							return
+						}
+						switch x := v.(type) {
+						case *ssa.Lookup:
+							if a, ok := core.IsLoad(x.X); ok {
+								if fa, ok := a.(*ssa.FieldAddr); ok && core.FieldOfAddr(fa).Name() == "conns" {
+									lk = x
+								}
+							}
+						case *ssa.Extract:
+							find(x.Tuple, d+1)
+						case *ssa.BinOp:
+							find(x.X, d+1)
+							find(x.Y, d+1)
+						case *ssa.UnOp:
+							find(x.X, d+1)
+						}
+					}
+					find(dc.V, 0)
+					if lk == nil {
+						continue
+					}
+					if unlockBetween(fn, lk, ins) {
+						stale = lk
+					} else {
+						fresh = lk
+					}
+				}
+				if stale == nil && fresh == nil {
+					return
+				}
+				n++
+				k++
+				key := fmt.Sprintf("%s/check-then-act#%d", core.FnKey(fn), k)
+				if fresh != nil {
+					r.OK(key, p.InstrPos(ins), "a lookup in the same critical section decides the action")
+				} else {
+					r.Violate(key, p.InstrPos(ins), "this update of the pool's shared state is decided by a lookup in the connection map at "+p.InstrPos(stale)+", but the pool's lock is released between the two and nothing looks again: another goroutine can take the same decision in the gap (the same connection object is then removed, or pushed on the free list, twice)", nil)
+				}
+			})
+		}
+	}
+	c.Counts["check_then_act_sites"] = n
+	if n < 2 {
+		r.Missing("pools/check-then-act sites", fmt.Sprintf("only %d found", n))
+	}
 }
